@@ -51,7 +51,9 @@ def gen(rng):
         vol = rng.choice(L['vols']) if (cross and L['vols']) else rng.choice(vols)
         wd = L['work'][vol]
         aux = home + '/aux' if vol == '/' else vol + '/aux'
-        nm = rng.choice(['foo', 'foo', 'bar', 'sp ace', 'ü', 'new\nline', 'report.pdf', 'a.tar.gz', '.hidden.txt', 'dot.', 'v1.2']) + (str(i) if rng.random() < 0.5 else '')
+        nm = rng.choice(['foo', 'foo', 'bar', 'sp ace', 'ü', 'new\nline', 'report.pdf', 'a.tar.gz', '.hidden.txt', 'dot.', 'v1.2',
+                         # (246-253 bytes: '<name>.trashinfo' does not fit in NAME_MAX, '<name>_1' does - the info name is cut, the payload's must be too)
+                         'n' * 247, 'é' * 124, 'report[1].txt']) + (str(i) if rng.random() < 0.5 else '')
         p = wd + '/' + nm
         if p in args:
             continue
@@ -64,6 +66,8 @@ def gen(rng):
         ht = G.home_trash_of(env)
         for a in args:
             nm = posixpath.basename(a)
+            if len(nm.encode('utf-8')) > 240:
+                continue
             G.add_trashed(steps, ht, nm, TG.pct(home + '/old/' + nm), '2020-01-01T00:00:00', 'file', tag='old')
             for v in ([] if cross else L['vols']):
                 G.add_trashed(steps, v + '/.Trash-%d' % uid, nm, TG.pct('docs/' + nm), '2020-01-01T00:00:00', 'file', tag='oldv')
